@@ -121,3 +121,166 @@ pub fn step(name: &'static str) -> std::io::Result<()> {
         None => Ok(()),
     }
 }
+
+// ------------------------------------------------------------------------------------------------
+// Lock / micro-step recorder (hook "LR"; used by `vharness lockrec`).
+//
+// Every micro-step of the public API's locking protocol (`lib.rs`: the access lock `access_lock`, the
+// `shared` mutex, the checks and publications made under them, the rollback-log push / pop, the start
+// and the end of `Store::commit`) and the start of every API call report a NAMED marker, the small
+// integer id of the calling thread and — for call starts — the identifiers of the call (roots as short
+// hex, overlay ids, session ids) to a third process-global handler.
+//
+// Placement rule (so that the order in which a handler logs the markers is consistent with the
+// happens-before order of the lock the marker is about):
+//   * `X.wait` / `X.pre`  are reported BEFORE the (possibly blocking) operation is issued;
+//   * `X.got` / `X.ok` / `X.busy` / `M.lock` are reported AFTER the acquisition returned (lock held);
+//   * `X_unlock.pre` / `M.unlock` are reported BEFORE the guard is dropped (lock still held);
+//   * `X_unlock.post` is reported AFTER the guard was dropped;
+//   * a step made under a lock is reported while that lock is held.
+// The release markers are `LockDrop` values declared right after (pre) / right before (post) the guard
+// they are about: Rust drops locals in reverse declaration order and struct fields in declaration
+// order, so they fire on every path (`?`, `bail!`, `return`) without touching the code.
+//
+// Nothing here takes a lock of the store; without an installed handler a marker is one atomic load.
+// ------------------------------------------------------------------------------------------------
+
+/// One marker of the lock recorder.
+#[derive(Debug, Clone)]
+pub struct LockEvent<'a> {
+    /// marker name, e.g. `A.write.got`, `chk_root`, `call.commit`
+    pub name: &'static str,
+    /// small integer id of the reporting thread (process-global counter, assigned at first use)
+    pub tid: u32,
+    /// `key=value` fields separated by blanks (call starts, session ids); empty otherwise
+    pub detail: &'a str,
+}
+
+pub type LockHandler = dyn Fn(&LockEvent<'_>) + Send + Sync;
+
+static LOCK_HANDLER: RwLock<Option<Arc<LockHandler>>> = RwLock::new(None);
+static LOCK_HANDLER_ON: std::sync::atomic::AtomicBool = std::sync::atomic::AtomicBool::new(false);
+static NEXT_LOCK_TID: std::sync::atomic::AtomicU32 = std::sync::atomic::AtomicU32::new(1);
+static NEXT_SESSION_ID: std::sync::atomic::AtomicU64 = std::sync::atomic::AtomicU64::new(1);
+
+thread_local! {
+    static LOCK_TID: u32 = NEXT_LOCK_TID.fetch_add(1, std::sync::atomic::Ordering::SeqCst);
+}
+
+/// Install (or remove) the process-global handler of the lock recorder.
+pub fn set_lock_handler(handler: Option<Arc<LockHandler>>) {
+    let on = handler.is_some();
+    *LOCK_HANDLER.write().unwrap() = handler;
+    LOCK_HANDLER_ON.store(on, std::sync::atomic::Ordering::SeqCst);
+}
+
+/// The recorder's id of the calling thread.
+pub fn lock_tid() -> u32 {
+    LOCK_TID.with(|t| *t)
+}
+
+/// A fresh session id (reported by `call.begin_session` and by the session's release markers).
+pub fn next_session_id() -> u64 {
+    NEXT_SESSION_ID.fetch_add(1, std::sync::atomic::Ordering::SeqCst)
+}
+
+/// The first 8 bytes of a root / node, hex.
+pub fn short(node: &[u8; 32]) -> String {
+    node[..8].iter().map(|b| format!("{b:02x}")).collect()
+}
+
+fn lock_emit(name: &'static str, detail: &str) {
+    let handler = LOCK_HANDLER.read().unwrap().clone();
+    if let Some(h) = handler {
+        h(&LockEvent { name, tid: lock_tid(), detail });
+    }
+}
+
+/// Report a marker without fields.
+pub fn lock_step(name: &'static str) {
+    if LOCK_HANDLER_ON.load(std::sync::atomic::Ordering::Relaxed) {
+        lock_emit(name, "");
+    }
+}
+
+/// Report a marker with fields (built only if a handler is installed).
+pub fn lock_step_with(name: &'static str, detail: impl FnOnce() -> String) {
+    if LOCK_HANDLER_ON.load(std::sync::atomic::Ordering::Relaxed) {
+        lock_emit(name, &detail());
+    }
+}
+
+/// Reports its marker when dropped (if armed).
+pub struct LockDrop {
+    name: &'static str,
+    detail: String,
+    armed: bool,
+}
+
+impl LockDrop {
+    pub fn arm(&mut self) {
+        self.armed = true;
+    }
+}
+
+impl Drop for LockDrop {
+    fn drop(&mut self) {
+        if self.armed && LOCK_HANDLER_ON.load(std::sync::atomic::Ordering::Relaxed) {
+            lock_emit(self.name, &self.detail);
+        }
+    }
+}
+
+/// A marker reported when the returned value is dropped.
+pub fn on_drop(name: &'static str) -> LockDrop {
+    LockDrop { name, detail: String::new(), armed: true }
+}
+
+/// The same, armed only if `cond`.
+pub fn on_drop_if(cond: bool, name: &'static str) -> LockDrop {
+    LockDrop { name, detail: String::new(), armed: cond }
+}
+
+/// The same, carrying a session id.
+pub fn on_drop_sid(cond: bool, name: &'static str, sid: u64) -> LockDrop {
+    LockDrop { name, detail: format!("sid={sid}"), armed: cond }
+}
+
+/// A marker carrying a session id.
+pub fn lock_step_sid(name: &'static str, sid: u64) {
+    lock_step_with(name, || format!("sid={sid}"));
+}
+
+/// Start of `Nomt::begin_session`: the session id, whether the access lock is taken (not inside `rollback`), whether the
+/// session is based on live overlays (then `shared` is not consulted for the base root).
+pub fn call_begin_session(sid: u64, guard: bool, overlay: bool) {
+    lock_step_with("call.begin_session", || {
+        format!("sid={} guard={} overlay={}", sid, guard as u8, overlay as u8)
+    });
+}
+
+/// Start of `Nomt::rollback`.
+pub fn call_rollback(n: usize) {
+    lock_step_with("call.rollback", || format!("n={n}"));
+}
+
+/// Start of `FinishedSession::commit` / `try_commit_nonblocking`: base root, new root, whether a rollback delta is carried,
+/// whether the write guard is taken (not inside `rollback`).
+pub fn call_commit(name: &'static str, base: &[u8; 32], new: &[u8; 32], delta: bool, guard: bool) {
+    lock_step_with(name, || {
+        format!(
+            "base={} new={} delta={} guard={}",
+            short(base),
+            short(new),
+            delta as u8,
+            guard as u8
+        )
+    });
+}
+
+/// Reports `lock` now (to be called right after a guard was obtained) and `unlock` when dropped (declare it
+/// right after the guard: it is dropped right before it).
+pub fn held(lock: &'static str, unlock: &'static str) -> LockDrop {
+    lock_step(lock);
+    on_drop(unlock)
+}
